@@ -5,7 +5,7 @@ V2 best_match_names : real best_match on rendered branch names (bounded, solver-
 V3 repo_update      : real RallyRepository.update with a stub git whose branch/tag sets, current branch and failures are symbolic.
 """
 from esrally import exceptions
-from esrally.utils import repo, versions
+from esrally.utils import git, repo, versions
 
 from symx import core
 from symx.core import fresh_bool, fresh_int, observe, shadowed
@@ -289,6 +289,64 @@ def repo_update(sl):
         del failed
 
 
+# --------------------------------------------------------------------------------------------------------------------
+# branch listing: what git reports -> the names the match works on
+# --------------------------------------------------------------------------------------------------------------------
+# refs as printed by `git for-each-ref --format='%(refname:short)'`, with the branch the repository's owner would name
+REMOTE_REFS = [("origin/HEAD", None), ("origin", None), ("origin/master", "master"), ("origin/2", "2"), ("origin/2.1", "2.1"), ("origin/2.0", "2.0"),
+               ("origin/3", "3"), ("origin/backport/2.1", "backport/2.1"), ("origin/wip/3", "wip/3"), ("origin/release/2.2.1", "release/2.2.1"),
+               (" origin/1 ", "1")]
+LOCAL_REFS = [("HEAD", None), ("master", "master"), ("2", "2"), ("2.1", "2.1"), ("2.0", "2.0"), ("3", "3"), ("backport/2.1", "backport/2.1"), ("wip/3", "wip/3"),
+              ("release/2.2.1", "release/2.2.1"), (" 1 ", "1")]
+
+
+def _structured(name):
+    for u in UNIVERSE:
+        if u[5] == name:
+            return u
+    return (0, None, None, None, None, name)  # names with a slash are never version branches
+
+
+def git_listing(sl):
+    """the real git.branches (ref clean-up) composed with the real best_match: only branches that ARE named like a version count"""
+    remote = sl["remote"]
+    refs = REMOTE_REFS if remote else LOCAL_REFS
+    chosen = [(r, b) for (r, b) in refs if bool(fresh_bool("ref_%s" % r.strip().replace("/", "_")))]
+    cmds = []
+
+    class Proc:
+        @staticmethod
+        def run_subprocess_with_output(cmd):
+            cmds.append(cmd)
+            return [r for (r, _) in chosen]
+
+        @staticmethod
+        def run_subprocess_with_logging(cmd, **kw):
+            return 0
+
+        @staticmethod
+        def exit_status_as_bool(runnable, quiet=False):
+            return runnable() == 0
+
+    with shadowed(git, (), extra={"process": Proc}):
+        names = git.branches("/repo dir", remote=remote)
+    want = [b for (_, b) in chosen if b is not None]
+    core.note("refs", [r for (r, _) in chosen])
+    core.note("branches", names)
+    core.trace("n", len(names))
+    observe("the branch list is exactly the repository's branch names (remote name and HEAD entries removed, nothing else cut off)", names == want)
+    observe("the listing asks git for remote refs iff remote", len(cmds) == 1 and ("refs/remotes/" in cmds[0]) == remote)
+    for vtext, V in (("2.1.0", (2, 1, 0, None)), ("2.2.1", (2, 2, 1, None)), ("3.0.0", (3, 0, 0, None)), ("4.0.0", (4, 0, 0, None))):
+        try:
+            got = versions.best_match(names, vtext)
+        except Exception as e:  # noqa: BLE001
+            core.note("best_match raised", repr(e))
+            observe("best_match copes with every listed branch name", False)
+            continue
+        exp = documented_best_match([_structured(b) for b in want], V)
+        observe("best match over what git lists, for %s: unrelated names (also with a version-like last path segment) are ignored" % vtext, got == exp)
+
+
 class _Quiet:
     @staticmethod
     def warn(*a, **kw):
@@ -322,6 +380,11 @@ HARNESSES = [
                     "branch lists": "all ordered lists of <=2 names (thorough: all 3-subsets)", "versions": "M.m.p[-SNAPSHOT], M in 1..3, m 0..2, p 0..1"},
             doc="complete best_match on rendered names vs. the documented precedence"),
     Harness("special_versions", special_versions, "bounded-exhaustive", lambda tier: [{}], reads=READS, doc="unknown/serverless/malformed versions"),
+    Harness("git_listing", git_listing, "bounded-exhaustive", lambda tier: [{"remote": True}, {"remote": False}],
+            reads=READS + [git.branches, git._cleanup_remote_branch_names, git._cleanup_local_branch_names],
+            stubs=["process.run_subprocess_* inside esrally.utils.git (returns a solver-chosen subset of the listed refs)"],
+            bounds={"remote refs": [r for r, _ in REMOTE_REFS], "local refs": [r for r, _ in LOCAL_REFS], "versions": "2.1.0, 2.2.1, 3.0.0, 4.0.0"},
+            doc="git's ref listing -> branch names -> best match (slash-named branches, HEAD entries, padding)"),
     Harness("repo_update", repo_update, "symbolic",
             lambda tier: [{"remote": r, "version": v, "V": V} for r in (True, False)
                           for (v, V) in (("2.1.0", (2, 1, 0, None)), ("2.2.1", (2, 2, 1, None)), ("3.0.0", (3, 0, 0, None)), ("2.1.0-SNAPSHOT", (2, 1, 0, "SNAPSHOT")))],
